@@ -18,6 +18,14 @@ RULE = ("exhaustive: every string of length <=6 (thorough: <=7) over {narrow 'a'
         "tie-only extras: columns in {-1,0,1}, control characters, random longer strings with columns up to 7, and "
         "sequences of ChunkSplitter.request(max_width) calls incl. max_width<1. non-trivial = distinct case whose string "
         "contains a wide or combining character, or that raises")
+LEVEL_NOTE = ("theorems are for EVERY wcwidth function with values 0/1/2 on the string and columns >= 2: termination, no "
+              "exception, and the relation Lines (consecutive non-empty segments, every line but the last exactly `columns` wide, "
+              "one padding space formatted like the double-width character that would straddle the boundary). Latitude left by "
+              "the statement (the property's own observation is 'up to placement of zero-width characters'): a zero-width "
+              "character following a full line may stay on it or open the next line - the code keeps it only when it is in the "
+              "same run; Lines allows both, the oracle compares lines per column-occupying character and the full sequence "
+              "after removing the padding. Trusted: Lean kernel + propext/Classical.choice/Quot.sound, the hand-written model, "
+              "the wire codec; cwcwidth is a parameter whose values are read live per run")
 ASSUMPTIONS = ["columns >= 2 and characters of width 0, 1 or 2 (the library raises ValueError otherwise; tie-checked only)",
                "lines are compared with the reference wrap per character up to the placement of zero-width characters "
                "(a combining character after a full line may stay on it or open the next line)"]
